@@ -340,8 +340,15 @@ func c09Sched(c *vrep.Ctx) {
 		[]byte("pp aa bb cc dd ee ff gg hh"),                       // the shorter-than-q document followed by A
 		[]byte("pp"),                                               // the shorter-than-q document alone
 	}
+	// inputs 8 and 9: the same 5 KB of unrelated words, then DIFFERENT documents, equal byte length
+	// (anything keyed by a prefix, a length or a cheap digest of the input cannot tell them apart)
+	head := strings.Repeat("zqhead zqfill ", 360)
+	inputs = append(inputs, []byte(head+"aa bb cc dd ee ff gg hh"), []byte(head+"kk ll mm nn oo zqpadxxx"))
+	if len(inputs[8]) != len(inputs[9]) || len(head) < 4200 {
+		panic("c09: the twin inputs must have equal length and a common head of more than 4 KB")
+	}
 	// scenario: which inputs the threads use (forced collisions first)
-	scens := [][]int{{0, 0}, {0, 1}, {1, 3}, {3, 2}, {0, 1, 3}, {1, 1, 0}, {4, 4}, {4, 5}, {6, 0}, {6, 6}, {7, 4}}
+	scens := [][]int{{0, 0}, {0, 1}, {1, 3}, {3, 2}, {0, 1, 3}, {1, 1, 0}, {4, 4}, {4, 5}, {6, 0}, {6, 6}, {7, 4}, {8, 9}, {9, 8, 8}}
 	pick := scens[scen%len(scens)]
 	if nthreads < len(pick) {
 		pick = pick[:nthreads]
@@ -402,7 +409,7 @@ func c09Sched(c *vrep.Ctx) {
 				t := t
 				vsync.Go(fmt.Sprintf("caller%d", t), func() {
 					in := inputs[pick[t]]
-					if t%2 == 1 {
+					if t%2 == 1 && c.Param("api", "mixed") != "match" {
 						res, err := cl.MatchFrom(bytes.NewReader(in))
 						got[t] = vFmt(res)
 						if err != nil {
@@ -509,9 +516,44 @@ func c09Race(c *vrep.Ctx) {
 		}(g)
 	}
 	wg.Wait()
-	c.R.Evaluations = int64(n * rounds)
-	c.R.Nontrivial = int64(len(inputs))
-	c.Sample(map[string]interface{}{"goroutines": n, "calls": n * rounds})
+	// twins: inputs of EQUAL byte length that share their first 5 KB and continue with different
+	// documents, matched at the same time (anything that identifies an input by a prefix, its length
+	// or a cheap digest would confuse them)
+	head := strings.Repeat("zqhead zqfill ", 360)
+	var twins [][]byte
+	for i := 0; i+1 < len(pool) && len(twins) < 8; i += 2 {
+		a, b := head+string(pool[i].Bytes), head+string(pool[i+1].Bytes)
+		for len(a) < len(b) {
+			a += "\n"
+		}
+		for len(b) < len(a) {
+			b += "\n"
+		}
+		twins = append(twins, []byte(a), []byte(b))
+	}
+	twant := make([]string, len(twins))
+	for i, in := range twins {
+		twant[i] = vFmt(cl.Match(in))
+	}
+	trounds := c.Pick(20, 60)
+	for g := 0; g < 8; g++ {
+		wg.Add(1)
+		go func(g int) {
+			defer wg.Done()
+			for k := 0; k < trounds; k++ {
+				i := (k/4*2)%len(twins) + (g+k)%2 // all goroutines on the two halves of one pair at a time
+				if got := vFmt(cl.Match(twins[i])); got != twant[i] {
+					mu.Lock()
+					bad = append(bad, fmt.Sprintf("twin input %d (5 KB common head, then %s): concurrent %s, sequential %s", i, pool[i].Key, got, twant[i]))
+					mu.Unlock()
+				}
+			}
+		}(g)
+	}
+	wg.Wait()
+	c.R.Evaluations = int64(n*rounds + 8*trounds)
+	c.R.Nontrivial = int64(len(inputs) + len(twins))
+	c.Sample(map[string]interface{}{"goroutines": n, "calls": n*rounds + 8*trounds})
 	sort.Strings(bad)
 	for _, b := range bad {
 		c.Violate("c09_race:result:"+strings.SplitN(b, ":", 2)[0], b, nil, b)
